@@ -157,7 +157,7 @@ def interleaved_args(form, rng, arrays):
     named = list(dict.fromkeys(s for t in form["terms"] for s in t if s != "..."))
     if form["output"] is not None:
         named += [s for s in form["output"] if s != "..." and s not in named]
-    ints = rng.sample(range(0, 20), len(named))
+    ints = rng.sample(range(0, 52), len(named))
     m = dict(zip(named, ints))
     args, sub = [], []
     for x, t in zip(arrays, form["terms"]):
@@ -601,9 +601,9 @@ def run(ctx, drv):
     stream_size1_broadcast(ctx, st)
     stream_single(ctx, drv, st)
     q = ctx.tier == "quick"
-    stream_einsum(ctx, drv, st, 1500 if q else 25000)
-    stream_array_contract(ctx, drv, st, 400 if q else 5000)
-    stream_ncon(ctx, drv, st, 200 if q else 2500)
+    stream_einsum(ctx, drv, st, 5000 if q else 80000)
+    stream_array_contract(ctx, drv, st, 1200 if q else 15000)
+    stream_ncon(ctx, drv, st, 600 if q else 8000)
 
 
 def search(ctx):
